@@ -4,6 +4,7 @@
 import Proofs.VerifyReg
 import Proofs.VerifyAuth
 import Props.C06
+import Proofs.CborWF
 namespace Webauthn.Props.C08
 open Webauthn Generated
 
@@ -43,5 +44,33 @@ theorem cross {W : World} {a : AuthCred} {e e' : AuthExpect} {r : VerifiedAuth}
   obtain ⟨key, pk, s, hk, hpk, _, hv⟩ := C06.binding_auth h
   obtain ⟨key', pk', s', hk', hpk', _, hv'⟩ := C06.binding_auth h'
   exact hne key key' pk pk' hk hk' hpk hpk' (huk pk pk' s s' _ _ hv hv')
+
+/-! ### the parser's re-serialisation of the credential public key is harmless -/
+
+/-- The bytes `parse_authenticator_data` returns as the credential public key are the canonical
+re-encoding of the CBOR value the authenticator sent, and they decode back to exactly that value:
+re-serialising cannot alter the stored key. (`v'` is the input after the one documented Ed25519
+header patch.) -/
+theorem returned_key_is_sent_key {val : Bytes} {p : Nat} {att : AttestedCred} {p' : Nat} {v' : Bytes}
+    (h : parseAttested val p = .ok (att, p', v')) :
+    ∃ key, parseCbor (v'.drop (p + 18 + beNat (slice val (p + 16) (p + 18)))) = .ok key ∧
+      att.publicKey = encodeCbor key ∧ parseCbor att.publicKey = .ok key ∧
+      ∀ rest, parseCbor (att.publicKey ++ rest) = .ok key := by
+  unfold parseAttested at h
+  simp only [bind, Except.bind, pure, Except.pure] at h
+  split at h
+  · cases h
+  · rename_i key hk
+    cases h
+    refine ⟨key, hk, rfl, ?_, fun rest => reencode_stable hk rest⟩
+    have := reencode_stable hk []
+    simpa using this
+
+/-- and a second parse of the returned bytes returns the very same bytes (fixed point) -/
+theorem returned_key_fixed_point {bs : Bytes} {v : Cbor} (h : parseCbor bs = .ok v) :
+    (parseCbor (encodeCbor v)).map encodeCbor = .ok (encodeCbor v) := by
+  have := reencode_stable h []
+  simp only [List.append_nil] at this
+  rw [this]; rfl
 
 end Webauthn.Props.C08
